@@ -27,11 +27,13 @@ ONE_OR_MORE = {"MSGSETCORE", "MFACHALLENGERS", "MSGSETLIST", "CONTRIBINFO", "TAX
 
 
 class Opts:
-    def __init__(self, stratum="mixed", run_order=True, value_fn=None, maxdepth=9):
+    def __init__(self, stratum="mixed", run_order=True, value_fn=None, maxdepth=9, force=(), exclude=()):
         self.stratum = stratum
         self.run_order = run_order
         self.value_fn = value_fn  # optional override: (rng, desc, clsname, attr) -> value or NotImplemented
         self.maxdepth = maxdepth
+        self.force = tuple(force)  # children of the ROOT class that must be present (list attr: >=1 member)
+        self.exclude = tuple(exclude)  # children of the ROOT class that must be absent
 
 
 def list_runs(cls):
@@ -97,6 +99,18 @@ def plan(cls, rng, profile, depth, opts):
         else:
             members = [rng.choice(listattrs) for _ in range(n)]
 
+    force = set(opts.force) if depth == 0 else set()
+    exclude = set(opts.exclude) if depth == 0 else set()
+    for g in force:
+        if g in present:
+            present[g] = True
+        elif g in listattrs and g not in members:
+            members.append(g)
+    for g in exclude:
+        if g in present:
+            present[g] = False
+        members = [m for m in members if m != g]
+
     # ---- exclusivity groups (members may be list attributes) ----
     opt, req = ref_decl.mutexes_in_force(cls)
 
@@ -120,8 +134,12 @@ def plan(cls, rng, profile, depth, opts):
         for group in req:
             group = [g for g in group if g in present or g in listattrs]
             on = [g for g in group if is_on(g)]
+            if group and all(g in exclude for g in group):
+                continue  # caller deliberately wants none of this group (negative probe)
             if len(on) != 1 and group:
-                keep = rng.choice(on) if on else rng.choice(group)
+                forced = [g for g in (on or group) if g in force]
+                allowed = [g for g in (on or group) if g not in exclude] or group
+                keep = forced[0] if forced else rng.choice(allowed)
                 for g in group:
                     if g == keep:
                         if not is_on(g):
@@ -133,7 +151,7 @@ def plan(cls, rng, profile, depth, opts):
             on = [g for g in group if is_on(g)]
             if len(on) > 1:
                 # prefer to keep a child that is required or sits in a required group
-                pinned = [g for g in on if getattr(d.get(g), "required", False) or any(g in rg for rg in req)]
+                pinned = [g for g in on if g in force] or [g for g in on if getattr(d.get(g), "required", False) or any(g in rg for rg in req)]
                 keep = rng.choice(pinned) if pinned else rng.choice(on)
                 for g in on:
                     if g != keep:
@@ -144,18 +162,28 @@ def plan(cls, rng, profile, depth, opts):
 
     # ---- class-specific rules (validate_args overrides) ----
     if name == "SONRQ":
-        if rng.random() < 0.6:
+        keyside = ("userkey" in force) if (force & {"userkey", "userid", "userpass"}) else (rng.random() >= 0.6)
+        if "userkey" in exclude:
+            keyside = False
+        if not keyside:
             present.update(userid=True, userpass=True, userkey=False)
         else:
             present.update(userid=False, userpass=False, userkey=True)
     elif name == "OFX":
         side = rng.choice(["rq", "rs"])
+        for f in force:
+            if f.endswith("rqv1") or f.endswith("rsv1"):
+                side = f[-4:-2]
         for k in list(present):
             if not k.endswith(side + "v1"):
                 present[k] = False
-        present["signonmsgs%sv1" % side] = True
+        if ("signonmsgs%sv1" % side) not in exclude:
+            present["signonmsgs%sv1" % side] = True
     elif name == "CONTRIBSECURITY":
         side = rng.choice(["pct", "amt"])
+        for f in force:
+            if f.endswith("pct") or f.endswith("amt"):
+                side = f[-3:]
         ks = [k for k in present if k != "secid"]
         for k in ks:
             if not k.endswith(side):
@@ -190,6 +218,15 @@ def plan(cls, rng, profile, depth, opts):
 
 
 def build(cls, rng, profile="random", depth=0, opts=None):
+    args, kwargs = make_args(cls, rng, profile, depth, opts)
+    try:
+        return cls(*args, **kwargs)
+    except Exception as e:  # noqa
+        raise ConstructorRejected(cls.__name__, e, sorted(kwargs), [type(a).__name__ for a in args])
+
+
+def make_args(cls, rng, profile="random", depth=0, opts=None):
+    """(args, kwargs) for a valid instance of cls - children already built."""
     opts = opts or Opts()
     if depth > opts.maxdepth + 4:
         raise GenGiveUp(f"nesting deeper than {opts.maxdepth + 4} at {cls.__name__}")
@@ -211,10 +248,17 @@ def build(cls, rng, profile="random", depth=0, opts=None):
             args.append(build(t.__type__, rng, profile, depth + 1, opts))
         else:
             args.append(_value(rng, t, cls.__name__, m, opts))
-    try:
-        return cls(*args, **kwargs)
-    except Exception as e:  # noqa
-        raise ConstructorRejected(cls.__name__, e, sorted(kwargs), [type(a).__name__ for a in args])
+    return args, kwargs
+
+
+def child_value(cls, attr, rng, opts=None):
+    """A valid value for one declared child (sub-aggregate instance, member, or element value)."""
+    opts = opts or Opts()
+    t = ref_decl.decl(cls)[attr]
+    kind = ref_decl.kind_of(t)
+    if kind in ("sub", "listagg"):
+        return build(t.__type__, rng, "min", 1, opts)
+    return _value(rng, t, cls.__name__, attr, opts)
 
 
 def build_seeded(clsname, seedstr, profile="random", opts=None):
